@@ -219,6 +219,11 @@ class QueryParser(object):
                     e = sys.exc_info()[1]
                     return query.error_query(e)
 
+            # A field that is not indexed (e.g. STORED) cannot be searched
+            if not field.format or not field.analyzer:
+                return query.error_query("Field %r is not indexed"
+                                         % fieldname)
+
             # Otherwise, ask the field to process the text into a list of
             # tokenized strings
             texts = list(field.process_text(text, mode="query",
